@@ -22,7 +22,7 @@ EXPLANATION = (
     'all four castling moves; Book::pieceToProm / promToPiece are inverse (constant evaluation over all codes); (3) a failed file read '
     'zero-fills the entry before deSerialize uses it, the binary search keeps lo = -1 / hi = numEntries as exclusive bounds so only '
     'indices 0..n-1 are read, and the scan loop is bounded by numEntries; (4) the weight accumulator of getBookMove is wide enough for (widest stored weight) x (largest entry count of a file) and the random pick is defined for every total (found and fixed defect D12: Random::nextInt never returns for a modulus above 2^30).'
-    ' Added later; (6) the cumulative-weight test of getBookMove, replayed for every weight vector over {0..3} of length 1..4 and every draw, chooses entry k exactly weight(k) times. (1, extended) the legality filter is executed unconditionally.')
+    ' Added later; (6) the cumulative-weight test of getBookMove, replayed for every weight vector over {0..3} of length 1..4 and every draw, chooses entry k exactly weight(k) times. (1, extended) the legality filter is executed unconditionally. (7) the scan of the entries stored under a key ends only on a key mismatch or the end of the file: with equal keys no early exit is reachable, whatever weight or move the entry holds.')
 UNDECIDED = 'that a corrupt file never produces a legal but wrong move; selection probabilities.'
 ASSUMPTIONS = ['MoveGen::pseudoLegalMoves + removeIllegal produce exactly the legal moves (property C01)',
                'book files are smaller than 2^40 bytes (used only to bound the number of entries under one key in C18.4)']
@@ -41,6 +41,7 @@ def run(fb, rep, tier):
     c4_weight_sum(fb, rep)
     c5_file_positions(fb, rep)
     c6_selection_rule(fb, rep)
+    c7_scan_ends_on_key_mismatch_only(fb, rep)
 
 
 def c1_validate(fb, rep):
@@ -572,3 +573,47 @@ def c6_selection_rule(fb, rep):
                         bad.append('weights %s: chosen %s times, %d draws past the end' % (list(ws), counts, fell))
         rep.ob(clause, 'K12 selection rule', 'getBookMove chooses entry k for exactly weight(k) of the total possible draws (positive weight: positive probability; weight 0: never)',
                not bad, '%s:%s' % (f.file, ln), 'test: drawn %s running weight, weight added %s the test; %s' % (op, 'before' if before else 'after', bad), f.sname)
+
+
+# ----------------------------------------------------------------------------- .7
+
+def c7_scan_ends_on_key_mismatch_only(fb, rep):
+    """K4 every stored move with positive weight is offered.  The entries of one key are adjacent in a sorted file, in no
+    particular order of weight or move.  The scan that collects them may end only when the key of the entry read differs
+    (or the file ends); and an entry with the right key may be left out only because of what that entry itself says, not
+    because of an earlier one.  So with `entry key == position key`, no `break` / `return` inside the scan loop may be
+    reachable, whatever the weight or the move are (guards evaluated three-valued with the two keys equal)."""
+    clause = 'C18.7'
+    f = fb.find1('Book::getBookEntries')
+    if rep.need(clause, f, 'Book::getBookEntries') is None:
+        return
+    hash_ids = {(_strip(e_['args'][1]) or {}).get('id') for _, _, e_ in f.events() if e_.get('k') == 'call' and cname(e_) == 'PolyglotBook::deSerialize' and len(e_.get('args', [])) >= 2}
+    key_ids = {v['id'] for _, _, e_ in f.events() if e_.get('k') == 'decl' for v in e_.get('vars', []) if any(n.get('k') == 'call' and cname(n) == 'PolyglotBook::getHashKey' for n in walk(v.get('init') or {}))}
+    out_vec = {p_['id'] for p_ in f.d.get('params', []) if 'vector' in (p_.get('t') or '')}
+    pushes = [b for b, i, e in f.events() if e.get('k') == 'call' and cname(e).split('::')[-1] in ('push_back', 'emplace_back') and isinstance(e.get('recv'), dict) and e['recv'].get('id') in out_vec]
+    if rep.need(clause, None if not (hash_ids and key_ids and pushes) else 1, 'entry key / position key / result vector of getBookEntries') is None:
+        return
+    loops = f.natural_loops()
+    scan = [h for h, body in loops.items() if any(p_ in body for p_ in pushes)]
+    if rep.need(clause, scan, 'the loop that collects the entries') is None:
+        return
+    h = min(scan, key=lambda x: len(loops[x]))
+    body = loops[h]
+    eq = lambda t: ('v', 7) if t.get('k') == 'var' and (t.get('id') in hash_ids or t.get('id') in key_ids) else None
+    # exits other than the loop condition itself: successors outside the body from blocks other than the header
+    exits = []
+    for b in sorted(body):
+        for s_ in f.blocks[b]['succ']:
+            if s_ not in body and b != h:
+                exits.append((b, s_))
+    leaks = []
+    for b, s_ in exits:
+        tgt = b if (f.blocks[b].get('term') or {}).get('c') in ('BreakStmt', 'ReturnStmt') or not f.blocks[b]['succ'][1:] else s_
+        if not G.excluded_under(f, tgt, eq):
+            leaks.append('%s:%s' % (f.file, (f.blocks[b].get('term') or {}).get('ln') or f.block_line(b)))
+    rep.floor(clause, 'early exits of the entry scan', len(exits), 1)
+    rep.ob(clause, 'K4 guard', 'getBookEntries: with the entry\'s key equal to the position\'s key no early exit of the scan can be taken', not leaks,
+           '%s:%s' % (f.file, (f.blocks[h].get('term') or {}).get('ln')), '%d early exit(s); reachable with equal keys: %s' % (len(exits), leaks), f.sname)
+    # ... and with equal keys the entry is appended
+    skipped = [b for b in pushes if G.excluded_under(f, b, eq)]
+    rep.ob(clause, 'K4 guard', 'getBookEntries: an entry stored under the position\'s key is appended to the result', not skipped, f.where, '', f.sname)
